@@ -829,6 +829,10 @@ def gen_case(case_seed, profile, workdir, force_mode=None):
     recorded name belongs to a wholly different same-size decoy or to no file; a small share of the c14 / scale14 cases as well),
     'metafolder' (C14 only: the metafile lies in a folder NEXT TO ITS OWN PAYLOAD, the usual `create` layout, and that folder --
     or the metafile in it -- is what -m names; for some files the search directories given with -c hold only decoys or nothing).
+    'paths' (scatterings and decoys as in c13; two or three SIBLING search directories one of whose names is a string prefix of
+    another -- 'parts' / 'parts2', 'disk1' / 'disk10', given in any order, mostly with every intact copy in a directory whose
+    name extends a sibling's -- and the destination spelled as on a command line: spell_destination), 'inplace' (C13 only:
+    gen_inplace_case -- the destination equals or contains a search directory and some files are already at their final place).
     Everything is derived from case_seed.  Files are written under workdir.
     force_mode='cli-proc': the unpatched command line in a fresh interpreter (enumeration order of the filesystem).
     """
@@ -837,6 +841,8 @@ def gen_case(case_seed, profile, workdir, force_mode=None):
     cl = case["classes"]
     # 'scale:<shape>:<kind>' / 'scale14:<shape>:<kind>': the first torrent of the case is a payload at scale (scale_payload);
     # decoys as in profile c13 / c14; the full text stays the case's profile (a replay regenerates the case from it)
+    if profile == "inplace":
+        return gen_inplace_case(case_seed, workdir, force_mode)
     profile, _, variant = profile.partition(":")
     at_scale = profile in ("scale", "scale14")
     boundary = profile in ("boundary", "boundary-only")
@@ -935,6 +941,23 @@ def gen_case(case_seed, profile, workdir, force_mode=None):
 
     # ---- scatter: intact copies of EVERY file under its own file name, decoys, unrelated files
     nroots = rng.choice([1, 1, 2, 3])
+    root_names = [f"S{r}" for r in range(nroots)]
+    long_root = None
+    prng = random.Random(f"paths:{case_seed}")
+    if profile == "paths":
+        # aimed: two or three SIBLING search directories one of whose names is a string prefix of another ('parts' / 'parts2'); in
+        # most cases every intact copy lies in a directory whose name extends a sibling's; the directories given in any order
+        nroots = 3 if nroots == 3 else 2
+        fam = list(prng.choice(PREFIX_FAMILIES))
+        root_names = [fam[0]] + prng.sample(fam[1:], nroots - 1)
+        prng.shuffle(root_names)
+        ext = [i for i, n in enumerate(root_names) if any(n != m and n.startswith(m) for m in root_names)]
+        if prng.random() < 0.7:
+            long_root = prng.choice(ext)
+            cl.add("search directories: every intact copy in a directory whose name extends a sibling's name")
+        cl.add("search directories: siblings, one name a string prefix of another")
+        cl.add("search directories: the shorter name given " + ("first" if root_names.index(fam[0]) == 0 else "later"))
+    case["root_names"] = root_names
     cl.add(f"{nroots} search root{'s' if nroots > 1 else ''}")
     pc = Placer()
     case["placer"] = pc
@@ -1026,6 +1049,8 @@ def gen_case(case_seed, profile, workdir, force_mode=None):
                 and n_longer < 4
             banded = want_same or want_part or want_longer
             root = rng.randrange(nroots)
+            if long_root is not None:
+                root = long_root
             if only_decoy:
                 e["intact_at"] = None
                 case["only_decoy"] = "/".join(e["rel"])
@@ -1067,7 +1092,7 @@ def gen_case(case_seed, profile, workdir, force_mode=None):
         pc.place(rng, rng.randrange(nroots), None, rng.choice(["unrelated.txt", "README", "zz", "0.nfo", "other é"]),
                  rng.randbytes(rng.choice([0, 10, 5000])), "unrelated")
     sroot = os.path.join(workdir, "search")
-    case["search"] = [os.path.join(sroot, f"S{r}") for r in range(nroots)]
+    case["search"] = [os.path.join(sroot, root_names[r]) for r in range(nroots)]
     for r in case["search"]:
         os.makedirs(r, exist_ok=True)
     for p, data in pc.files.items():
@@ -1100,7 +1125,9 @@ def gen_case(case_seed, profile, workdir, force_mode=None):
     case["metafiles"] = metas
     case["dest"] = os.path.join(workdir, "out", "dest")
     dd = rng.random()
-    if dd < 0.14:
+    if profile == "paths":
+        spell_destination(case, prng, [os.path.join(sroot, n) for n in root_names])
+    elif dd < 0.14:
         os.makedirs(case["dest"])
         case["dest_arg"], case["cwd"] = ".", case["dest"]
         cl.add("destination '.' (relative, one element, cwd = destination)")
@@ -1150,6 +1177,143 @@ def gen_case(case_seed, profile, workdir, force_mode=None):
     return case
 
 
+PREFIX_FAMILIES = [("parts", "parts2", "parts2.old"), ("disk1", "disk10", "disk1 b"), ("S", "S.bak", "Sx"),
+                   ("seed", "seed-incoming", "seed.old"), ("dl", "dl_", "dl.d")]
+
+
+def spell_destination(case, prng, roots):
+    """
+    profile 'paths': the destination as people spell it on a command line -- './../x', '../x', './.hidden', './x/', 'x/./y', an
+    absolute path with a '..' segment or a trailing separator, a sibling of the search directories whose name extends a search
+    directory's name -- from a working directory that is a search directory, the parent of the search directories, the folder
+    of the metafiles or the parent of everything.  case['dest'] is the directory these spellings denote (as the shell resolves them).
+    """
+    w, cl = case["workdir"], case["classes"]
+    out = os.path.join(w, "out")
+    options = [
+        ("'./../../x/y' from inside a search directory", os.path.join(out, "dest"), "./../../out/dest", roots[0]),
+        ("'./../x/y' from the parent of the search directories", os.path.join(out, "dest"), "./../out/dest", os.path.dirname(roots[0])),
+        ("'../../x/y' from inside a search directory", os.path.join(out, "dest"), "../../out/dest", roots[-1]),
+        ("'./.hidden' (a name that starts with a dot)", os.path.join(out, ".dest"), "./.dest", out),
+        ("'./../.hidden' from the folder of the metafiles", os.path.join(w, ".dest"), "./../.dest", os.path.join(w, "meta")),
+        ("'./x/y/' (trailing separator)", os.path.join(out, "dest"), "./out/dest/", w),
+        ("'x/./y'", os.path.join(out, "dest"), "out/./dest", w),
+        ("'.//x/y'", os.path.join(out, "dest"), ".//out/dest", w),
+        ("absolute with a '..' segment through a search directory", os.path.join(out, "dest"), os.path.join(roots[0], "..", "..", "out", "dest"), None),
+        ("absolute with a trailing separator", os.path.join(out, "dest"), os.path.join(out, "dest") + os.sep, None),
+        ("a sibling of the search directories whose name extends a search directory's name, './../<name>-out' from inside that one",
+         roots[0] + "-out", "./../" + os.path.basename(roots[0]) + "-out", roots[0]),
+        ("a sibling of the search directories whose name extends a search directory's name, absolute", roots[0] + ".out", roots[0] + ".out", None),
+    ]
+    label, dest, arg, cwd = prng.choice(options)
+    case["dest"], case["dest_arg"], case["cwd"] = dest, arg, cwd
+    if cwd is not None or prng.random() < 0.6:
+        os.makedirs(dest, exist_ok=True)
+        cl.add("destination exists")
+    else:
+        cl.add("destination missing")
+    cl.add("destination spelled " + label)
+    if case.get("force_mode") != "cli-proc":
+        case["mode"] = "cli" if prng.random() < 0.7 else "api"
+
+
+def gen_inplace_case(case_seed, workdir, force_mode=None):
+    """
+    profile 'inplace' (C13 only): the destination EQUALS or CONTAINS a search directory ('-c . -d .', '-c dest/name -d dest') and
+    some files of the torrent are already intact at their final place dest/name/...; the remaining files lie elsewhere in the
+    search directories (under the destination, or in a second search directory).  Aimed shapes: v1 with a file in place and a
+    small neighbour that shares its only / its last piece with it, the small file in place and the big one missing, three files
+    in two directories; the same through v2 / hybrid metafiles of the reference encoder.  Everything must be restored.
+    """
+    rng = random.Random(f"inplace:{case_seed}")
+    cl = set()
+    case = {"seed": case_seed, "profile": "inplace", "workdir": workdir, "classes": cl, "force_mode": force_mode,
+            "decoys": [], "carried": []}
+    pl = rng.choice([16384, 16384, 32768])
+    kind = rng.choice(["v1", "ref1", "v1", "ref1", "ref2", "ref3"])
+    name = rng.choice(["tor0", "album", "proj.d"])
+    shape = rng.choice(["one piece", "one piece", "big then small", "small then big", "three files"])
+    if shape == "one piece":
+        sizes = {("00_a.bin",): rng.choice([100, 5000, pl - 300]), ("01_b.bin",): rng.choice([1, 77, 200])}
+    elif shape == "big then small":
+        sizes = {("00_a.bin",): rng.choice([pl + 5, 2 * pl + 100, 2 * pl - 50, pl]), ("01_b.bin",): rng.choice([1, 77, 200])}
+    elif shape == "small then big":
+        sizes = {("00_a.bin",): rng.choice([1, 77, 300]), ("01_b.bin",): rng.choice([pl + 5, 2 * pl, 5000])}
+    else:
+        sizes = {("00_d", "00_a"): rng.choice([300, pl]), ("00_d", "01_b"): rng.choice([pl + 9, 700]), ("50_e", "00_c"): rng.choice([120, 1])}
+    tree = {k: rng.randbytes(v) for k, v in sizes.items()}
+    t = {"name": name, "single": False, "tree": tree, "pl": pl, "kind": kind}
+    make_metafile(t, workdir)
+    case["torrents"] = [t]
+    cl.update({"structured layout", "metafile " + kind, "in place: payload shape " + shape})
+    cl.update(classify_layout(t))
+    ents = [e for e in t["layout"] if e["rel"]]
+    biggest = max(range(len(ents)), key=lambda i: ents[i]["length"])
+    if rng.random() < 0.6:
+        placed = {biggest}
+        cl.add("in place: the largest file is at its final place, its small neighbours are elsewhere")
+    else:
+        placed = set(rng.sample(range(len(ents)), rng.randrange(1, len(ents))))
+        cl.add("in place: a random non-empty proper subset of the files is at its final place")
+    arrangement = rng.choice(["the search directory is the destination", "the search directory is the destination",
+                              "the search directory is the payload directory inside the destination",
+                              "the destination and a second directory are searched"])
+    cl.add("in place: " + arrangement)
+    dest = os.path.join(workdir, "out", "dest")
+    payload_dir = arrangement.startswith("the search directory is the payload")
+    search = [os.path.join(dest, name) if payload_dir else dest]
+    names = ["dest/" + name if payload_dir else "dest"]
+    if arrangement.startswith("the destination and"):
+        search.append(os.path.join(workdir, "search", "S1"))
+        names.append("S1")
+    pc = Placer()
+    case["placer"] = pc
+    for i, e in enumerate(ents):
+        fname = e["rel"][-1]
+        if i in placed:
+            p = (0,) + tuple(e["rel"][1:] if payload_dir else e["rel"])
+            pc.add(p, e["data"], "intact, at its final place")
+        else:
+            r = len(search) - 1
+            sub = rng.choice([("_incoming",), ("other", "k.d"), ("zz",)])
+            p = (r,) + sub + (fname,)
+            pc.add(p, e["data"], "intact")
+        e["intact_at"] = p
+    for p, data in pc.files.items():
+        fp = os.path.join(search[p[0]], *p[1:])
+        os.makedirs(os.path.dirname(fp), exist_ok=True)
+        with open(fp, "wb") as fd:
+            fd.write(data)
+    for d in search:
+        os.makedirs(d, exist_ok=True)
+    case["root_names"] = names
+    case["search"] = search
+    case["in_place"] = ["/".join(ents[i]["rel"]) for i in sorted(placed)]
+    case["preexisting"] = sorted(k for k, v in snapshot(dest).items() if v[0] != "d")
+    case["metafiles"] = [t["metafile"]]
+    case["dest"] = dest
+    spell = rng.choice(["'.' for both, from inside the destination", "absolute", "'.' destination, absolute search",
+                        "'../dest' destination and '.' search from inside the destination", "absolute with trailing separators"])
+    rel_search = ["." if s == dest else os.path.relpath(s, dest) for s in search]
+    if spell.startswith("'.' for both"):
+        case["dest_arg"], case["cwd"], case["search_arg"] = ".", dest, rel_search
+    elif spell == "absolute":
+        case["dest_arg"], case["cwd"] = dest, None
+    elif spell.startswith("'.' destination"):
+        case["dest_arg"], case["cwd"] = ".", dest
+    elif spell.startswith("'../dest'"):
+        case["dest_arg"], case["cwd"], case["search_arg"] = "../dest", dest, rel_search
+    else:
+        case["dest_arg"], case["cwd"], case["search_arg"] = dest + os.sep, None, [s + os.sep for s in search]
+    cl.add("in place: spelled " + spell)
+    case["order"] = rng.choice(["sorted", "sorted", "reversed"])
+    case["mode"] = "cli" if rng.random() < 0.5 else "api"
+    if force_mode == "cli-proc":
+        case["mode"], case["order"] = "cli-proc", "native"
+    cl.update({"mode " + case["mode"], "enumeration " + case["order"], "destination exists", f"{len(search)} search root{'s' if len(search) > 1 else ''}"})
+    return case
+
+
 def classify_layout(t):
     """boundary classes of Appendix B (rebuild) that the metafile's own file order exhibits"""
     cl = set()
@@ -1192,7 +1356,7 @@ def classify_layout(t):
 
 
 def job_of(case, jid=0):
-    return {"id": jid, "mode": case["mode"], "metafiles": case["metafiles"], "search": case["search"],
+    return {"id": jid, "mode": case["mode"], "metafiles": case["metafiles"], "search": case.get("search_arg") or case["search"],
             "dest": case["dest_arg"], "cwd": case["cwd"], "order": case["order"], "sandbox": case["workdir"]}
 
 
@@ -1202,6 +1366,11 @@ def case_summary(case):
         out["right_bytes_only_under_another_name"] = [{k: c[k] for k in ("file", "other_name", "how")} for c in case["carried"]]
     if case.get("outside_only"):
         out["in_the_metafile_folder_but_in_no_search_directory"] = case["outside_only"]
+    if case.get("search_arg"):
+        out["search_as_spelled"] = case["search_arg"]
+    if case.get("in_place"):
+        out["destination"] = os.path.relpath(case["dest"], case["workdir"])
+        out["already_at_their_final_place"] = case["in_place"]
     return sanitize(out)           # names that are not valid UTF-8 are shown with \xNN
 
 
@@ -1213,7 +1382,8 @@ def _case_summary(case):
             "torrents": [{"name": t["name"], "kind": t["kind"], "piece_length": t["pl"],
                           "files": [["/".join(e["rel"][1:]) if e["rel"] else "<pad>", e["length"]] for e in t["layout"]][:12]}
                          for t in case["torrents"]],
-            "scattered": sorted(f"S{p[0]}/" + "/".join(p[1:]) + f" [{case['placer'].role[p]}, {len(d)} bytes]"
+            "scattered": sorted((case.get("root_names") or [f"S{i}" for i in range(9)])[p[0]] + "/" + "/".join(p[1:]) +
+                                f" [{case['placer'].role[p]}, {len(d)} bytes]"
                                 for p, d in case["placer"].files.items())[:40]}
 
 
